@@ -1,7 +1,7 @@
 SPECIFICATION Spec
 CONSTANTS
   N = 5
-  DVals = {1, 2, 3}
+  DVals = {1, 2, 3, 4}
   Mult = 3
   Canon = TRUE
   EpsG <- E34
